@@ -865,7 +865,7 @@ _LOSSLESS_METHODS = {'tobytes', 'tolist', 'astype', 'copy', 'ravel', 'flatten', 
 _LOSSLESS_FUNCS = {'tuple', 'bytes', 'id', 'frozenset', 'list'}
 
 
-def _memo_key_gap(node: ast.AST, fn: ast.AST) -> Optional[str]:
+def _memo_key_gap(node: ast.AST, fn: ast.AST, include_self: bool = False) -> Optional[str]:
     """For `self.memo[key] = value`: the parameters of `fn` the value is computed from that the key does not
     cover losslessly (the parameter itself, id(), tuple()/bytes()/tolist()/tobytes() of it).  A key built from
     a projection (`.shape`, `len()`, a sum ...) lets two different inputs share one entry."""
@@ -873,7 +873,9 @@ def _memo_key_gap(node: ast.AST, fn: ast.AST) -> Optional[str]:
         return None
     key, val = node.targets[0].slice, node.value
     a = fn.args
-    params = {x.arg for x in a.posonlyargs + a.args + a.kwonlyargs} - {'self', 'cls'}
+    params = {x.arg for x in a.posonlyargs + a.args + a.kwonlyargs}
+    if not include_self:
+        params -= {'self', 'cls'}           # a memo kept ON the object need not name the object
     if a.vararg:
         params.add(a.vararg.arg)
     if a.kwarg:
